@@ -5,7 +5,7 @@ Emit == Done => PrintT(<<"CASE", ToJson([t |-> "tag", md |-> md, kw |-> kw, cls 
 AutoPoints == {[t |-> "auto", md |-> d, pat |-> p, cont |-> c, nested |-> n, automatic |-> Automatic(d, p)] :
                  d \in Defaults, p \in Patterns, c \in Containers, n \in BOOLEAN}
 EmitAuto == (phase = "md") => \A a \in AutoPoints : PrintT(<<"CASE", ToJson(a)>>)
-AutoOnlyInAutomaticModules == \A a \in AutoPoints : a.automatic => (a.md = "AUTOMATIC" /\ a.pat = "none")
+AutoOnlyInAutomaticModules == \A a \in AutoPoints : a.automatic => (a.md = "AUTOMATIC" /\ a.pat \in {"none", "none_ext"})
 \* cross-module points: a keyword-less or keyworded tag written in a module with default md reaches a module with default md2 by
 \* COMPONENTS OF an imported type or by instantiating an imported parameterized type; the mode is decided where the tag is
 \* written (X.680 31.2.7 speaks of the module in which the tag notation appears), never by the module that uses it
@@ -16,5 +16,5 @@ EmitCross == (phase = "md") => \A a \in {x \in CrossPoints : x.md # x.md2} : Pri
 CrossIndependentOfUser == \A a, b \in CrossPoints : (a.md = b.md /\ a.kw = b.kw /\ a.kind = b.kind) => a.explicit = b.explicit
 ASSUME CrossIndependentOfUser
 ASSUME AutoOnlyInAutomaticModules
-ASSUME Cardinality(AutoPoints) = 96
+ASSUME Cardinality(AutoPoints) = 168
 =============================================================================
